@@ -196,30 +196,36 @@ def ifcase_obligation(k):
 
 
 # ---------------------------------------------------------------- \\or and \\else met while a branch is being delivered: skip to the matching \\fi
-def skip_to_fi_obligation(which, k):
-    """which: 'or' (valid inside a switch only) or 'else' (valid in a true branch or a switch)."""
+def skip_to_fi_obligation(which, k, stack_len=1):
+    """which: 'or' (valid inside a switch only) or 'else' (valid in a true branch or a switch). The branch stack
+    (RefCell<Vec<Branch>> in the component) is modelled, so pop_branch runs from the dump."""
     from mir2smt.execmir import Agg, Ref, Cell, Opaque
+    from mir2smt import models_iter  # noqa: F401
     base = false_case_obligation(k)
     TRUE_B, ELSE_B, SWITCH_B = 0, 1, 2  # BranchKind discriminants (source order)
 
     def build(sym, bind):
         a, vals = base["build_args"](sym, bind)
-        if sym.consts is not None:
-            has = I(sym.consts.get("has_branch", 1))
-            kind = I(sym.consts.get("branch_kind", SWITCH_B))
-        else:
-            has = tm.V("has_branch")
-            sym.assumes.append(tm.and_(tm.le(I(0), has), tm.le(has, I(1))))
-            sym.vars["has_branch"] = "i32"
-            kind = tm.V("branch_kind")
-            sym.assumes.append(tm.and_(tm.le(I(0), kind), tm.le(kind, I(2))))
-            sym.vars["branch_kind"] = "i32"
-        a.update(has_branch=has, branch_kind=kind)
+        kinds = []
+        for j in range(stack_len):
+            if sym.consts is not None:
+                kinds.append(I(sym.consts.get(f"branch_kind{j}", SWITCH_B)))
+            else:
+                v = tm.V(f"branch_kind{j}")
+                sym.assumes.append(tm.and_(tm.le(I(0), v), tm.le(v, I(2))))
+                sym.vars[f"branch_kind{j}"] = "i32"
+                kinds.append(v)
+        a.update(branch_kinds=kinds)
         return a, vals
 
-    def env_pop_branch(ex, m, args, tys, st, fn, symargs):
-        st.log.append(("pop_branch",))
-        return [(st, Enum(symargs["has_branch"], {1: [Agg([Opaque("branch token"), Enum(symargs["branch_kind"], {}, "BranchKind")])]}, "Option"))]
+    def component(st, symargs):
+        if not hasattr(st, "c07_component"):
+            branches = Agg([Agg([Opaque(f"branch token {j}"), Enum(kd, {}, "BranchKind")]) for j, kd in enumerate(symargs["branch_kinds"])])
+            st.c07_component = Cell(Agg([Agg([branches]), Agg([Agg([I(IF)]), Agg([I(ELSE)]), Agg([I(OR)]), Agg([I(FI)])])]))
+        return st.c07_component
+
+    def env_component(ex, m, args, tys, st, fn, symargs):
+        return [(st, Ref(component(st, symargs)))]
 
     def env_error(ex, m, args, tys, st, fn, symargs):
         st.log.append(("error",))
@@ -232,38 +238,46 @@ def skip_to_fi_obligation(which, k):
         cls = a["cls"]
         consumed = sum(1 for e in st.log if e[0] == "token")
         errors = sum(1 for e in st.log if e[0] == "error")
-        pops = sum(1 for e in st.log if e[0] == "pop_branch")
-        if pops != 1:
+        stack = component(st, a).v.fields[0].fields[0].fields
+        kinds = a["branch_kinds"]
+        # the innermost open branch is closed, whatever it was; the others are untouched
+        want_len = max(stack_len - 1, 0)
+        if len(stack) != want_len:
             return tm.FALSE
-        if which == "or":
-            valid = tm.and_(tm.eq(a["has_branch"], I(1)), tm.eq(a["branch_kind"], I(SWITCH_B)))
+        untouched = tm.and_(*[tm.eq(stack[j].fields[1].tag, kinds[j]) for j in range(want_len)])
+        if stack_len == 0:
+            valid = tm.FALSE
+        elif which == "or":
+            valid = tm.eq(kinds[-1], I(SWITCH_B))
         else:
-            valid = tm.and_(tm.eq(a["has_branch"], I(1)), tm.or_(tm.eq(a["branch_kind"], I(TRUE_B)), tm.eq(a["branch_kind"], I(SWITCH_B))))
+            valid = tm.or_(tm.eq(kinds[-1], I(TRUE_B)), tm.eq(kinds[-1], I(SWITCH_B)))
         if errors:
             # misplaced: reported, nothing skipped
-            return tm.and_(tm.not_(valid), tm.B(errors == 1 and consumed == 0 and ret.tag.val == 0))
+            return tm.and_(untouched, tm.not_(valid), tm.B(errors == 1 and consumed == 0 and ret.tag.val == 0))
         depth = I(0)
         stops = []
         for i in range(k):
             stops.append(tm.and_(tm.eq(cls[i], I(FI)), tm.eq(depth, I(0))))
             depth = tm.add(depth, tm.ite(tm.eq(cls[i], I(IF)), I(1), tm.ite(tm.eq(cls[i], I(FI)), I(-1), I(0))))
         if ret.tag.val == 1:
-            return tm.and_(valid, tm.B(consumed == k and st.log[-1] == ("end_of_input",)), *[tm.not_(s_) for s_ in stops])
+            return tm.and_(untouched, valid, tm.B(consumed == k and st.log[-1] == ("end_of_input",)), *[tm.not_(s_) for s_ in stops])
         if consumed == 0:
             return tm.FALSE
         i = consumed - 1
-        return tm.and_(valid, stops[i], *[tm.not_(s_) for s_ in stops[:i]])
+        return tm.and_(untouched, valid, stops[i], *[tm.not_(s_) for s_ in stops[:i]])
 
     fn = {"or": "or_primitive_fn", "else": "else_primitive_fn"}[which]
-    return dict(base, name=f"c07_{which}_skips_to_fi_{k}_tokens", fn=("texlang-stdlib", fn, None, None), build_args=build, post=post,
-                env_models=base["env_models"] + [(r"^pop_branch::<S>$", env_pop_branch), (r"^<ExpansionInput<S> as (?:[a-z_]+::)*TokenStream>::error::<.*>$", env_error),
-                                                  (r"^(?:[a-z_]+::)*SimpleTokenError::new::<.*>$", env_new_error)],
-                witnesses=[("a nested conditional is skipped whole", lambda a: tm.and_(tm.eq(a["cls"][0], I(IF)), tm.eq(a["cls"][1], I(FI)), tm.eq(a["cls"][2], I(FI)), tm.eq(a["has_branch"], I(1)), tm.eq(a["branch_kind"], I(SWITCH_B)))),
-                           ("misplaced", lambda a: tm.eq(a["has_branch"], I(0)))] if k >= 3 else [],
-                funcs=[f"texlang_stdlib::conditional::{fn} (generic MIR; branch stack (pop_branch), token stream, tag lookup, component access and error reporting replaced by stubs)"],
-                bound=(f"an arbitrary top of the branch stack (none, true, else, switch) and a stream of {k} tokens with arbitrary tags: a \\{which} met while a branch is delivered pops the branch and, "
-                       f"when it is {'inside a switch' if which == 'or' else 'in a true branch or a switch'}, skips exactly the tokens up to and including the matching \\fi (nested conditionals skipped whole); "
-                       "otherwise it reports one error and consumes nothing; the only other failure is the end of the input"))
+    envs = [e for e in base["env_models"] if "HasComponent" not in e[0]]
+    return dict(base, name=f"c07_{which}_skips_to_fi_{k}_tokens_stack{stack_len}", fn=("texlang-stdlib", fn, None, None), build_args=build, post=post,
+                env_models=envs + [(r"^<S as (?:[a-z_]+::)*HasComponent<conditional::Component>>::component$", env_component),
+                                   (r"^<ExpansionInput<S> as (?:[a-z_]+::)*TokenStream>::error::<.*>$", env_error),
+                                   (r"^(?:[a-z_]+::)*SimpleTokenError::new::<.*>$", env_new_error)],
+                witnesses=[("a nested conditional is skipped whole", lambda a: tm.and_(tm.eq(a["cls"][0], I(IF)), tm.eq(a["cls"][1], I(FI)), tm.eq(a["cls"][2], I(FI)), tm.eq(a["branch_kinds"][-1], I(SWITCH_B)))),
+                           ("misplaced", lambda a: tm.eq(a["branch_kinds"][-1], I(ELSE_B)))] if k >= 3 and stack_len >= 1 else [],
+                funcs=[f"texlang_stdlib::conditional::{fn} and pop_branch (generic MIR; the branch stack is a modelled RefCell<Vec<Branch>>; token stream, tag lookup and error reporting replaced by stubs)"],
+                bound=(f"a branch stack of {stack_len} open branch(es) of arbitrary kinds (true, else, switch) and a stream of {k} tokens with arbitrary tags: a \\{which} met while a branch is delivered closes the innermost "
+                       f"branch (the others are untouched) and, when that branch is {'a switch case' if which == 'or' else 'a true branch or a switch case'}, skips exactly the tokens up to and including the matching \\fi "
+                       "(nested conditionals skipped whole); otherwise it reports one error and consumes nothing; the only other failure is the end of the input"))
 
 
 PROP = {
@@ -277,7 +291,8 @@ PROP = {
     "assumptions": ["i32::parse(input) is stubbed: returns Ok(n) for an arbitrary i32 n (its own behaviour is the subject of C06)"],
     "obligations": [
         false_case_obligation(4), false_case_obligation(5), ifcase_obligation(4),
-        skip_to_fi_obligation("or", 5), skip_to_fi_obligation("else", 5), skip_to_fi_obligation("or", 3), skip_to_fi_obligation("else", 3),
+        skip_to_fi_obligation("or", 5, 1), skip_to_fi_obligation("else", 5, 1), skip_to_fi_obligation("or", 4, 2), skip_to_fi_obligation("else", 4, 2),
+        skip_to_fi_obligation("or", 2, 0), skip_to_fi_obligation("else", 2, 0),
         dict(engine="B", name="c07_ifnum_condition", crates=["texlang-stdlib"], fn=("texlang-stdlib", "evaluate", "IfNum", "Condition"),
              args=[("input", "opaque ExpansionInput")],
              env_models=[(r"^<\(i32, (?:[a-z_]+::)*Ordering, i32\) as (?:[a-z_]+::)*Parsable>::parse::<.*>$", env_parse_relation)],
